@@ -9,9 +9,9 @@ import sys
 
 VERIF = os.path.dirname(os.path.dirname(os.path.abspath(__file__)))
 flags = [a for a in sys.argv[1:] if a.startswith('--')]
-ROUND = 6 if '--round6' in flags else 5 if '--round5' in flags else 4 if '--round4' in flags else 3 if '--round3' in flags else 2
+ROUND = 7 if '--round7' in flags else 6 if '--round6' in flags else 5 if '--round5' in flags else 4 if '--round4' in flags else 3 if '--round3' in flags else 2
 MAP = {2: {'A': 'C', 'B': 'D', 'C': 'E'}, 3: {'A': 'F', 'B': 'G', 'C': 'H'}, 4: {'A': 'I', 'B': 'J', 'C': 'K'},
-       5: {'A': 'L', 'B': 'M', 'C': 'N'}, 6: {'A': 'O', 'B': 'P', 'C': 'Q'}}[ROUND]
+       5: {'A': 'L', 'B': 'M', 'C': 'N'}, 6: {'A': 'O', 'B': 'P', 'C': 'Q'}, 7: {'A': 'R', 'B': 'S', 'C': 'T'}}[ROUND]
 for pid in [a for a in sys.argv[1:] if not a.startswith('--')]:
     out = '/tmp/mut%d/%s/out' % (ROUND, pid)
     try:
